@@ -228,9 +228,32 @@ def key_lens(case):
     return [case["lens"][i] for i in o["ids"]]
 
 
+WEAVE_OPS = ("open", "next", "len", "peek")
+
+
+def weave_of(case):
+    """The interleaved section of a loader case as primitive operations: `["open"]` (it_k =
+    iter(loader), k counts the iterators of the section), `["next", k]`, `["len"]` (len(loader)),
+    `["peek", e]` (list(loader.batch_sampler.sampler.get_samples_for_epoch(e))), `["set", e]`;
+    `["drain", k]` stands for as many `next(it_k)` as exhaust any pass over this data set (one per
+    utterance + 1: the last ones see StopIteration)."""
+    n_full = len(eff(case)["ids"]) + 1
+    out = []
+    for w in case.get("weave") or ():
+        if w[0] == "drain":
+            out += [("next", int(w[1]))] * n_full
+        elif w[0] in ("open", "len"):
+            out.append((w[0], None))
+        else:
+            out.append((w[0], int(w[1])))
+    return out
+
+
 def ops_of(case):
     """The operations applied to the loader object: k epochs, then optionally a jump of
     `loader.epoch` + one epoch, optionally an abandoned iteration (first batch only) + one epoch,
+    optionally an interleaved section (several live iterators advanced alternately, len() and
+    look-ups of other epochs in the middle of passes that are then continued to their end),
     finally a rewind to the first epoch + one epoch."""
     o = eff(case)
     e0 = o["init_epoch"]
@@ -239,16 +262,30 @@ def ops_of(case):
         ops += [("set", int(case["jump"])), ("serve", "jump")]
     if case.get("abandon"):
         ops += [("set", e0), ("partial", "abandoned"), ("serve", "after_abandon")]
+    ops += weave_of(case)
     ops += [("set", e0), ("serve", "rewound")]
     return ops
 
 
 def epochs_reached(case):
+    """Every epoch whose ordering the model can need for this operation sequence (bookkeeping of
+    the epoch counter only: a full pass and the first next() of an iterator advance it)."""
     o = eff(case)
-    e, out = o["init_epoch"], set()
+    e, out, started = o["init_epoch"], set(), []
     for op, arg in ops_of(case):
         if op == "set":
             e = arg
+        elif op == "open":
+            started.append(False)
+        elif op == "len":
+            out.add(e)
+        elif op == "peek":
+            out.add(arg)
+        elif op == "next":
+            if arg < len(started) and not started[arg]:
+                started[arg] = True
+                out.update((e, e + 1))
+                e += 1
         else:
             out.update((e, e + 1))
             e += 1
@@ -504,6 +541,7 @@ class C14(PropertyCheck):
                     n_workers_left -= 1
                     case["num_workers"] = rng.choice((1, 2))
                     case["epochs"] = 1
+                    case.pop("weave", None)     # worker processes pre-fetch at iter(loader): not this model
                 yield case
 
     def loader_case(self, rng, tier, cls, lens, rl, lay, bad_kwarg=None):
@@ -582,7 +620,61 @@ class C14(PropertyCheck):
             case["abandon"] = True
         if bad_kwarg:
             case["bad_kwarg"] = bad_kwarg
+        else:
+            case["weave"] = self.weave_script(rng, len(eff(case)["ids"]), e0, case["epochs"])
         return case
+
+    @staticmethod
+    def weave_script(rng, N, e0, epochs):
+        """An interleaved section (see `weave_of`): what a training script may do with a loader
+        WHILE a pass over it is in flight, the pass being continued to its end afterwards - len()
+        for a progress display after the first / any / every batch, a look-up of another epoch's
+        samples, a second (third) iterator of the same loader advanced alternately (zip(loader,
+        loader)), an epoch assignment; one iterator may be left unfinished."""
+        some_epoch = lambda: rng.choice((e0, e0, e0 + 1, max(e0 - 1, 0), e0 + epochs, rng.randrange(0, e0 + epochs + 4)))
+        w = [["set", e0]] if rng.random() < 0.7 else []
+        pat = rng.choice(("log_every", "log_once", "peek_once", "zip", "zip_len", "random", "random"))
+        if pat == "log_every":          # for i, batch in enumerate(loader): print(i, len(loader))
+            w.append(["open"])
+            for _ in range(N + 1):
+                w += [["next", 0], ["len"]]
+        elif pat in ("log_once", "peek_once"):      # after the first / in the middle / before the last batch
+            w.append(["open"])
+            w += [["next", 0]] * rng.choice((1, 1, max(N // 2, 1), max(N - 1, 1), rng.randrange(1, N + 2)))
+            w.append(["len"] if pat == "log_once" else ["peek", some_epoch()])
+            if rng.random() < 0.3:
+                w.append(rng.choice((["len"], ["peek", some_epoch()])))
+            w.append(["drain", 0])
+        elif pat in ("zip", "zip_len"):             # for a, b in zip(loader, loader)
+            w += [["open"], ["open"]]
+            for i in range(N + 1):
+                w += [["next", 0], ["next", 1]]
+                if pat == "zip_len" and rng.random() < 0.4:
+                    w.append(["len"])
+        else:
+            n_it, alive = 0, []
+            for _ in range(rng.randrange(5, 14)):
+                r = rng.random()
+                if (r < 0.2 and n_it < 3) or not n_it:
+                    w.append(["open"])
+                    alive.append(n_it)
+                    n_it += 1
+                elif r < 0.65:
+                    w.append(["next", rng.choice(alive)])
+                elif r < 0.8:
+                    w.append(["len"])
+                elif r < 0.92:
+                    w.append(["peek", some_epoch()])
+                else:
+                    w.append(["set", some_epoch()])
+            rng.shuffle(alive)
+            if len(alive) > 1 and rng.random() < 0.3:
+                alive.pop()             # left unfinished (and alive) while the others go on
+            for k in alive:
+                w.append(["drain", k])
+                if rng.random() < 0.3:
+                    w.append(["len"])
+        return w
 
     # ================================================================== implementation
     def run_impl(self, case):
@@ -605,19 +697,31 @@ class C14(PropertyCheck):
         return b
 
     def impl_sampler(self, case):
-        from pydrobert.torch.data import BucketBatchSampler
+        from pydrobert.torch.data import BucketBatchSampler, EpochRandomSampler, EpochSequentialSampler
         from pydrobert.torch._dataloaders import _get_batch_sampler_len
         kind = case.get("idkind", "int")
         i2b = {i: self.raw_bucket(kind, b) for i, b in case["i2b"]}
         b2s = {self.raw_bucket(kind, b): n for b, n in case["b2s"]}
         plain = case.get("sampler") == "plain"
-        args = (list(case["order"]) if plain else ListSampler(case["order"]), i2b, b2s) + (
-            () if case.get("drop_omitted") else (case["drop"],))
+        real = case.get("sampler") in ("epoch_random", "epoch_seq")
+        E = case.get("epoch", 0)
+        if real:        # the library's own epoch samplers underneath (order = their epoch E)
+            n = len(case["order"])
+            smp = (EpochRandomSampler(range(n), E, case["seed"], "ignore") if case["sampler"] == "epoch_random"
+                   else EpochSequentialSampler(range(n), E, "ignore"))
+        else:
+            smp = list(case["order"]) if plain else ListSampler(case["order"])
+        args = (smp, i2b, b2s) + (() if case.get("drop_omitted") else (case["drop"],))
         bs = BucketBatchSampler(*args)
+
+        def rewind():
+            if real:
+                smp.epoch = E
 
         def length():
             if plain:
                 return "undefined"
+            rewind()
             try:
                 return int(_get_batch_sampler_len(bs))
             except Exception as e:
@@ -625,6 +729,7 @@ class C14(PropertyCheck):
 
         def full():
             out, err = [], None
+            rewind()
             try:
                 for b in bs:
                     out.append([int(x) for x in b])
@@ -637,6 +742,7 @@ class C14(PropertyCheck):
         # a pass abandoned after its first batch, with len() asked in the middle, leaves no trace
         first, mid = None, None
         try:
+            rewind()
             it = iter(bs)
             first = next(it, None)
             mid = length()
@@ -644,9 +750,48 @@ class C14(PropertyCheck):
         except Exception:
             pass
         third, err3 = full()
+        # two passes alive at once, advanced alternately, len() (and, with a library sampler, a look-up
+        # of another epoch) asked after the first batch; BOTH are continued to their end
+        got, errs, mid2, other = [[], []], [None, None], None, None
+        rewind()
+        it_a = iter(bs)
+        live = [it_a]
+        try:
+            b = next(it_a, None)
+            if b is not None:
+                got[0].append([int(x) for x in b])
+            else:
+                live = []
+        except Exception as e:
+            errs[0], live = type(e).__name__, []
+        mid2 = length()
+        if real:
+            other = sorted(int(x) for x in smp.get_samples_for_epoch(E + 3))
+        rewind()
+        it_b = iter(bs)
+        live.append(it_b)
+        turn = 0
+        while live:
+            it = live[turn % len(live)]
+            which = 0 if it is it_a else 1
+            try:
+                b = next(it, None)
+                if b is None:
+                    live.remove(it)
+                else:
+                    got[which].append([int(x) for x in b])
+                    turn += 1
+            except Exception as e:
+                errs[which] = type(e).__name__
+                live.remove(it)
+        woven = (got[0] == out and got[1] == out and errs == [err, err] and mid2 == ln
+                 and (other is None or other == list(range(len(case["order"])))))
         return {"batches": out, "err": err, "len": ln, "repeatable": again == out and err == err2,
                 "after_abandon": third == out and err3 == err and mid == ln
-                and (first is None or (bool(out) and [int(x) for x in first] == out[0]))}
+                and (first is None or (bool(out) and [int(x) for x in first] == out[0])),
+                "interleaved": woven,
+                "interleaved_detail": None if woven else {"a": got[0], "b": got[1], "errs": errs, "len": mid2,
+                                                          "other_epoch": other}}
 
     # ---- params
     def impl_params(self, case):
@@ -1152,7 +1297,29 @@ class C14(PropertyCheck):
                         "problems": [p for b in bs for p in b["problems"]][:5],
                         "has_ids": [b["has_ids"] for b in bs][:1],
                         "len_after": len(loader), "epoch_after": int(loader.epoch)}
+            its = []            # the iter(loader) objects of the interleaved section, all kept alive
+            obs["events"] = []
             for op, arg in ops_of(case):
+                if op in WEAVE_OPS:
+                    ev = {"op": op, "epoch_before": int(loader.epoch)}
+                    if op == "open":
+                        its.append(iter(loader))
+                    elif op == "next":
+                        ev["k"] = arg
+                        try:
+                            cb = self.canon_batch(case, o, exp, next(its[arg]))
+                            ev["row"], ev["problems"] = cb["rows"], cb["problems"][:3]
+                        except StopIteration:
+                            ev["stop"] = True
+                    elif op == "len":
+                        ev["len"] = len(loader)
+                    else:
+                        ev["of"] = arg
+                        ev["samples"] = [int(x) for x in loader.batch_sampler.sampler.get_samples_for_epoch(arg)]
+                    ev["epoch_after"] = int(loader.epoch)
+                    obs["events"].append(ev)
+                    continue
+                obs["events"].append(None)
                 if op == "set":
                     loader.epoch = arg
                 elif op == "serve":
@@ -1216,7 +1383,9 @@ class C14(PropertyCheck):
                 "drop": case["drop"], "sort": o["sort_batch"], "cw": o["cw"], "mode": o["uneven"],
                 "dist": [case.get("rank", 0), W] if W else None, "init_epoch": o["init_epoch"],
                 "perms": [[e, ordering(case, seed, e, N)] for e in epochs_reached(case)],
-                "ops": [{"set": arg} if op == "set" else "serve" for op, arg in ops_of(case)]}}
+                "ops": [{"set": arg} if op == "set" else {"next": arg} if op == "next" else
+                        {"peek": arg} if op == "peek" else op if op in ("open", "len") else "serve"
+                        for op, arg in ops_of(case)]}}
         return None
 
     # ================================================================== correspondence
@@ -1338,6 +1507,29 @@ class C14(PropertyCheck):
             lib = sub_order(case, seed, b["epoch"])
             if lib != b["order"]:
                 out.append(w + f"sample order of a library sampler object {lib} != C13 model {b['order']}")
+        # the interleaved section, operation by operation
+        invisible = o["cw"] and o["suppress_uttids"]
+        for n, ((op, arg), a, b) in enumerate(zip(ops_of(case), impl.get("events", ()), model.get("events", ()))):
+            if op not in WEAVE_OPS or a is None:
+                continue
+            w = f"operation {n} ({op}{'' if arg is None else ' ' + str(arg)}, loader at epoch {b['epoch']}): "
+            if a["epoch_before"] != b["epoch"] or a["epoch_after"] != b["epoch_after"]:
+                out.append(w + f"loader.epoch {a['epoch_before']} -> {a['epoch_after']}, model "
+                           f"{b['epoch']} -> {b['epoch_after']}")
+            if op == "next":
+                if "err" in b:
+                    out.append(w + f"model fails with {b['err']}")
+                    continue
+                want = b.get("row")
+                if want is not None and invisible:
+                    want = [x for x in want if lens[x] > 0]
+                got = None if a.get("stop") else a["row"]
+                if got != want:
+                    out.append(w + f"next(it_{arg}) impl={got} model={want} (None = StopIteration)")
+            elif op == "len" and a["len"] != b["len"]:
+                out.append(w + f"len() impl={a['len']} model={b['len']}")
+            elif op == "peek" and a["samples"] != b["samples"]:
+                out.append(w + f"get_samples_for_epoch({arg}) impl={a['samples']} model={b['samples']}")
         if impl["serves"] and impl["serves"][-1]["epoch_after"] != model["final_epoch"]:
             out.append(f"loader.epoch = {impl['serves'][-1]['epoch_after']} at the end, model {model['final_epoch']}")
         return out
@@ -1406,6 +1598,10 @@ class C14(PropertyCheck):
         if not impl["after_abandon"]:
             fails.append(("after an iteration abandoned behind its first batch (len() asked in the middle) a "
                           "full iteration differs", "C14.repeat"))
+        if not impl.get("interleaved", True):
+            fails.append(("two iterations of the batch sampler alive at once (advanced alternately, len() asked after "
+                          "the first batch, both continued to their end) do not each yield the batches of a lone "
+                          f"iteration {impl['batches']}: {impl['interleaved_detail']}", "C14.interleaved"))
         return fails
 
     def pred_params(self, case, impl, model):
@@ -1627,7 +1823,11 @@ class C14(PropertyCheck):
             return [("no model verdict for a loader the implementation built", None)]
         params = model.get("params")
         by_epoch = {}
-        for a, b in zip(impl["serves"], model["serves"]):
+        # the iterators of the interleaved section count as passes of the epoch they started at
+        woven = self.weave_passes(case, impl, model)
+        serves_i = list(impl["serves"]) + [w["a"] for w in woven]
+        serves_m = list(model["serves"]) + [w["b"] for w in woven]
+        for a, b in zip(serves_i, serves_m):
             e = a["epoch_before"]
             where = f"{a['tag']} pass, epoch {e}: "
             if e != b["epoch"]:
@@ -1677,7 +1877,7 @@ class C14(PropertyCheck):
                 elif batches != unsorted:
                     fails.append((where + "rows are not in sampler order although sort_batch is off",
                                   "C14.loader.order"))
-            if a["len_before"] != len(batches):
+            if a["len_before"] is not None and a["len_before"] != len(batches):
                 first = impl["serves"][0]["len_before"]
                 stale = a is not impl["serves"][0] and a["len_before"] == first
                 fails.append((where + f"len() = {a['len_before']} before the pass, {len(batches)} batches yielded",
@@ -1688,7 +1888,7 @@ class C14(PropertyCheck):
             if a.get("partial"):
                 continue
             nxt = by_epoch.get(a["epoch_before"] + 1)
-            if nxt and a["len_after"] != len(nxt[0][1]):
+            if nxt and a["len_after"] is not None and a["len_after"] != len(nxt[0][1]):
                 fails.append((f"{a['tag']} pass, epoch {a['epoch_before']}: len() = {a['len_after']} afterwards, "
                               f"epoch {a['epoch_before'] + 1} has {len(nxt[0][1])} batches", "C14.loader.len"))
         # identical (seed, epoch) => identical batches, whatever happened to the object before
@@ -1700,7 +1900,7 @@ class C14(PropertyCheck):
                 if rows != got[0][1]:
                     fails.append((f"epoch {e}: the {got[0][0]} pass yields {got[0][1]}, {tag} {rows}",
                                   "C14.loader.determinism"))
-        for a in impl["serves"]:
+        for a in serves_i:
             if a.get("partial"):
                 full = by_epoch.get(a["epoch_before"])
                 if full:
@@ -1708,9 +1908,77 @@ class C14(PropertyCheck):
                     if a["first"] != first:
                         fails.append((f"epoch {a['epoch_before']}: the abandoned pass starts with {a['first']}, "
                                       f"a full pass with {first}", "C14.loader.determinism"))
+                    elif a.get("woven") and a["rows"] != full[0][1][:len(a["rows"])]:
+                        fails.append((f"epoch {a['epoch_before']}: the {a['tag']} (not consumed to its end) "
+                                      f"yields {a['rows']}, the {full[0][0]} pass {full[0][1]}",
+                                      "C14.loader.determinism"))
+        fails += self.weave_lookups(case, o, lens, impl, by_epoch)
         s0 = impl["serves"][0] if impl["serves"] else None
         if s0 and s0.get("has_ids") and s0["has_ids"][0] != (not o["suppress_uttids"]):
             fails.append(("suppress_uttids not honoured", "C14.loader.uttids"))
+        return fails
+
+    @staticmethod
+    def weave_passes(case, impl, model):
+        """The iterators of the interleaved section as passes: each belongs to the epoch the loader
+        stood at when its first batch was requested; `b` carries the model's sample order of that
+        epoch (C13's model) as oracle for the cover / bucket predicates."""
+        its = {}
+        for (op, arg), a, b in zip(ops_of(case), impl.get("events", ()), (model or {}).get("events", ())):
+            if op != "next" or a is None:
+                continue
+            if arg not in its:
+                its[arg] = {"a": {"tag": f"interleaved iterator {arg}", "woven": True, "done": False,
+                                  "epoch_before": a["epoch_before"], "epoch_after": a["epoch_after"],
+                                  "rows": [], "problems": [], "len_before": None, "len_after": None},
+                            "b": {"epoch": b["epoch"], "order": b["order"]}}
+            pa = its[arg]["a"]
+            if a.get("stop"):
+                pa["done"] = True
+            elif pa["done"]:
+                pa["problems"].append("a batch after StopIteration")
+            else:
+                pa["rows"].append(a["row"])
+                pa["problems"] += a["problems"]
+        for w in its.values():
+            if not w["a"]["done"]:      # not consumed to its end: only a prefix is known
+                w["a"]["partial"] = True
+                w["a"]["first"] = w["a"]["rows"][0] if w["a"]["rows"] else None
+        return [its[k] for k in sorted(its)]
+
+    @staticmethod
+    def weave_lookups(case, o, lens, impl, by_epoch):
+        """len() / get_samples_for_epoch asked while iterators are alive, and what the operations
+        of the interleaved section may do to loader.epoch."""
+        fails, started = [], set()
+        N = len(o["ids"])
+        for n, ((op, arg), a) in enumerate(zip(ops_of(case), impl.get("events", ()))):
+            if a is None or op not in WEAVE_OPS:
+                continue
+            e = a["epoch_before"]
+            moved = a["epoch_after"] - e
+            first_next = op == "next" and arg not in started
+            if op == "next":
+                started.add(arg)
+            if moved != int(first_next):
+                fails.append((f"operation {n} ({op}): loader.epoch {e} -> {a['epoch_after']}; only a full pass, an "
+                              "assignment and the first next() of an iterator move it (by one)", "C14.loader.epoch"))
+            if op == "len":
+                got = by_epoch.get(e)
+                if got and a["len"] != len(got[0][1]):
+                    fails.append((f"operation {n}: len() = {a['len']} asked while iterators are alive and the "
+                                  f"loader stands at epoch {e}; the {got[0][0]} pass over that epoch has "
+                                  f"{len(got[0][1])} batches", "C14.loader.len"))
+            elif op == "peek":
+                smp = a["samples"]
+                if len(set(smp)) != len(smp) or any(not 0 <= x < N for x in smp):
+                    fails.append((f"operation {n}: get_samples_for_epoch({arg}) = {smp} repeats or invents an index",
+                                  "C14.cover"))
+                got = by_epoch.get(arg)
+                if got and not case["drop"] and not (o["cw"] and o["suppress_uttids"] and 0 in lens):
+                    if multiset(x for bt in got[0][1] for x in bt) != multiset(smp):
+                        fails.append((f"operation {n}: get_samples_for_epoch({arg}) = {smp}, but the {got[0][0]} "
+                                      f"pass over epoch {arg} delivers {got[0][1]}", "C14.cover"))
         return fails
 
     @staticmethod
